@@ -38,6 +38,7 @@ def cases(tier, seed):
     for name in inner:
         for n in ([0, 1, 2, 5] if tier == "quick" else [0, 1, 2, 3, 5, 8, 13]):
             out.append(dict(kind="repeated", cls=name, n=n, rs=[seed, env.crc(name), n], cost=2))
+    out.append(dict(kind="repeated_mixed", rs=[seed, 41], cost=1))
     for rep in range(2 if tier == "quick" else 8):
         out.append(dict(kind="forced", rs=[seed, rep, 5], cost=2))
     for D in (1, 2, 3):
@@ -192,11 +193,11 @@ def run_repeated(case, bus, ex):
             st = zoo.build(ex, it)
             rs = ex.RepeatedStepper(st, n)
             C = zoo.channels(it)
-            # precondition of the property: on even N the n-fold application passes through physical space after every step, which re-symmetrises the Nyquist
-            # planes; symbols that are odd in a single wavenumber component (odd-order terms, the wave rotation, and mixed second derivatives k_i k_j of a full
-            # diffusivity matrix) are not Hermitian-symmetric there, so the comparison is made on Nyquist-free states
+            # precondition exactly as the property states it: Nyquist-free states on even N when the inner stepper has odd-order linear terms.
+            # (Mixed second derivatives k_i k_j of a full diffusivity matrix break the Hermitian symmetry of the Nyquist planes in the same way but are
+            #  NOT covered by that exception: they are judged on arbitrary states and reported - known finding F10.)
             mixed = any(isinstance(val, list) and val and isinstance(val[0], list) for val in it["kw"].values())
-            kind = "nyqfree" if (N % 2 == 0 and (has_odd_linear(it) or name == "stepper.Wave" or mixed)) else "white"
+            kind = "nyqfree" if (N % 2 == 0 and has_odd_linear(it)) else "white"
             u = G.random_state(rng, kind, C, D, N, amp=0.4)
             v = jnp.asarray(u)
             for _ in range(n):
@@ -204,7 +205,7 @@ def run_repeated(case, bus, ex):
             got = np.asarray(rs(jnp.asarray(u)))
             S = float(np.max(np.abs(u)) + np.max(np.abs(np.asarray(v))))
             sig = (name, D, N % 2, n, kind)
-            info = dict(intent=it, num_sub_steps=n, state=kind)
+            info = dict(intent=it, num_sub_steps=n, state=kind, mixed_second_derivatives=mixed, N_even=(N % 2 == 0))
             dt_ok = abs(float(rs.dt) - n * float(st.dt)) <= 1e-14 * max(1.0, n * float(st.dt))
             bus.judge("repeated_stepper", max(float(np.max(np.abs(got - np.asarray(v)))) / S, 0.0 if dt_ok else 1.0), 1e-11 * max(1, n), sig, sample=info,
                       witness=dict(info, diff=float(np.max(np.abs(got - np.asarray(v)))), dt=float(rs.dt), expected_dt=n * float(st.dt)), nontrivial=n >= 1)
@@ -215,6 +216,24 @@ def run_repeated(case, bus, ex):
                 bus.flag("repeated_stepper", "malformed state accepted", sig + ("shape",), witness=info)
             except ValueError:
                 bus.ok("repeated_stepper", sig + ("shape",), nontrivial=False)
+
+
+def run_repeated_mixed(case, bus, ex):
+    """Fixed configuration that exhibits known finding F10 on every run (so a change of its status is noticed): full-matrix diffusion, even N, Nyquist content."""
+    import jax.numpy as jnp
+    rng = env.rng_for(*case["rs"])
+    for N in (6, 7):
+        it = dict(cls="stepper.Diffusion", D=2, N=N, L=1.0, dt=0.1, kw=dict(diffusivity=[[0.02, 0.015], [0.015, 0.03]]))
+        st = zoo.build(ex, it)
+        n = 5
+        u = G.random_state(rng, "white", 1, 2, N, amp=0.4)
+        v = jnp.asarray(u)
+        for _ in range(n):
+            v = st(v)
+        got = np.asarray(ex.RepeatedStepper(st, n)(jnp.asarray(u)))
+        S = float(np.max(np.abs(u)))
+        info = dict(intent=it, num_sub_steps=n, state="white", mixed_second_derivatives=True, N_even=(N % 2 == 0))
+        bus.judge("repeated_stepper", float(np.max(np.abs(got - np.asarray(v)))) / S, 1e-11 * n, ("stepper.Diffusion", 2, N % 2, n, "white", "full matrix"), sample=info, witness=dict(info, diff=float(np.max(np.abs(got - np.asarray(v))))))
 
 
 def run_forced_batch(case, bus, ex, rng):
@@ -298,11 +317,15 @@ def run_icset(case, bus, ex):
 
 
 def run_case(case, bus, ex):
+    if case["kind"] == "repeated_mixed":
+        return run_repeated_mixed(case, bus, ex)
     return {"book": run_book, "windows": run_windows, "repeated": run_repeated, "forced": run_forced, "icset": run_icset}[case["kind"]](case, bus, ex)
 
 
 def classify(v):
     w = v.get("witness") or {}
+    if v["monitor"] == "repeated_stepper" and w.get("mixed_second_derivatives") and w.get("N_even") and w.get("state") == "white":
+        return "F10-repeated-stepper-mixed-derivative-nyquist"
     g = (w.get("generator") or {})
     if v["monitor"] == "build_ic_set" and g.get("name") == "RandomSineWaves1d" and w.get("exc") in ("TracerBoolConversionError", "ConcretizationTypeError"):
         return "F8-build-ic-set-sine-waves-tracer-bool"
